@@ -193,7 +193,14 @@ def rule_dispatch_hf(ctx: Ctx, rep: Report) -> None:
     rep.floor("C02.dispatch_hf", 4)
 
 
+def rule_own_fields(ctx: Ctx, rep: Report) -> None:
+    """C02.own_fields: an object hands its own fields to the functions it delegates to (see sigcommon.rule_own_fields_forwarded)."""
+    from rules.sigcommon import rule_own_fields_forwarded
+    rule_own_fields_forwarded(ctx, rep, "C02.own_fields", ('btclib.ecc.dsa',), 6)
+
+
 RULES = [
+    ("C02.own_fields", rule_own_fields),
     ("C02.dispatch_hf", rule_dispatch_hf),
     ("C02.signer_arm", rule_signer_arm),
     ("C02.signer_config", rule_signer_config),
@@ -208,6 +215,8 @@ RULES = [
 ]
 
 CONTROLS = [
+    {"rule": "C02.own_fields", "name": "Signer.sign_ computes the challenge under the default hash", "module": D,
+     "edit": lambda ctx: M.sub_expr(ctx, f"{D}.Signer.sign_", M.is_text("challenge_(msg_hash, self._ec, self._hf)"), "challenge_(msg_hash, self._ec)")},
     {"rule": "C02.dispatch_hf", "name": "sign_ asks the bindings without the hash function", "module": D,
      "edit": lambda ctx: M.sub_expr(ctx, f"{D}.sign_", lambda n: isinstance(n, ast.Call) and call_name(n) == "_libsecp256k1_serves" and len(n.args) == 2, "_libsecp256k1_serves(ec, None)")},
     {"rule": "C02.signer_config", "name": "Signer.sign reduces the message with the default hash", "module": D,
